@@ -15,7 +15,8 @@ def run(ctx):
     pdir, plans = ctx.tlc_plans(fam, "KeyLock_Gen", "KeyLock_Gen.cfg", num=ctx.q(120, 1500), depth=40)
     binary = ctx.go_build("c02")
     ctx.harness(binary, ["-plans", pdir, "-out", ctx.path("steps.ndjson"), "-stress", ctx.path("stress.ndjson"),
-                         "-seed", ctx.seed, "-rand", ctx.q(120, 2500), "-nstress", ctx.q(10, 150)],
+                         "-seed", ctx.seed, "-rand", ctx.q(120, 2500), "-nstress", ctx.q(10, 150),
+                         "-nprobe", ctx.q(5, 40), "-probepairs", ctx.q(60, 300)],
                 traces=[ctx.path("steps.ndjson"), ctx.path("stress.ndjson")])
     steps = ctx.load_traces(ctx.path("steps.ndjson"))
     stress = ctx.load_traces(ctx.path("stress.ndjson"))
